@@ -31,11 +31,15 @@ C = {
  "C06": ("lookups list exactly the nodes carrying an id (for an arbitrary fresh key), no duplicates/empty entries, running "
          "maxima dominate ids in use, after edit/undo/redo and after construction; get_track_neighbors / "
          "has_track_id_at_time equal the scan-of-graph definitions for unbounded integer arguments; issued node/track/"
-         "lineage ids are unused", "Bound: 3-4 node slots quick / 4-5 thorough."),
+         "lineage ids are unused; the same queries again at history-built states (after an edit and after its undo), also "
+         "with ids bounded to 0..3 so that code keyed by ids can be followed",
+         "Bound: 3-4 node slots quick / 4-5 thorough; query-after runs 3 slots, bounded-id run 2 slots. Undo/redo by C01 "
+         "+ the history lemma."),
  "C07": ("paint/erase strokes (every subset of a frame's cells, value = background / existing label / new label), node "
          "add/delete with pixels: array exactly as painted, labels<->nodes one-to-one in the node's frame, get_pixels "
          "exact, undo restores the array cell by cell, redo repaints",
-         "Bound: 2 node slots + spare on 2x1x2 quick; 3 slots, 3x1x2 and 3D 2x1x1x2 thorough. Caller precondition: an "
+         "Bound: 2 node slots + spare on 2x1x2, 1 slot on 2x1x3 and on 3D 2x3x1x1 (three z-planes), 2 slots on 3D "
+         "2x2x1x1 quick; 3 slots, 3x1x2 and 3D 2x1x1x2 thorough. Caller precondition: an "
          "existing label is painted only in its own frame; one frame per stroke."),
  "C08": ("which node is recomputed, from which frame, with which spacing: every enabled regionprops value equals "
          "RP(current mask bits of the node in its own frame, spacing) after every edit, undo, redo and after bulk enable",
@@ -51,7 +55,9 @@ C = {
  "C10": ("enable/disable with every key list (incl. unknown key -> KeyError, nothing changed) from every activation "
          "table; registry = static + active; disabled feature untouched by edits; values after enable-with-recompute = "
          "reference; managed keys and time refused by attribute updates whatever the activation",
-         "Activation tables are enumerated by engine forks (no data); values by the C08/C09 stubs."),
+         "Activation tables are enumerated by engine forks (no data); values by the C08/C09 stubs. Full cycle on one "
+         "object (enable with recompute, disable, symbolic paint edit, enable) for a shape feature and IoU: values = "
+         "reference (catches bookkeeping that only such a history fills)."),
  "C11": ("every refused user action (any exception type, any validation step, after any number of sub-edits) leaves graph, "
          "attributes, segmentation (once the caller restored the painted pixels), lookups, maxima, history, registry "
          "unchanged and emits nothing", "Bound: 3-4 node slots; paint driver with 3 slots on 2x1x2."),
@@ -92,7 +98,8 @@ C = {
          "Hole: what pandas/geff/zarr do with the captured values (counterexamples are replayed end to end through the "
          "real writers). Bound: 3 / 4 node slots, all subsets."),
  "C16": ("export_to_geff / export_to_csv / save_tracks / public queries leave graph, all attributes (registered or not), "
-         "array, scale, feature registry, lookups, history unchanged", "Same boundary as C15. Bound: 3 / 4 node slots."),
+         "array, scale, feature registry, lookups, history unchanged (queries include the deprecated public accessors and "
+         "Tracks.save)", "Same boundary as C15. Bound: 3 / 4 node slots."),
  "C17": ("whole infer_node_name_map / infer_edge_name_map on L symbolic columns (any strings of any length, any fuzzy-"
          "matcher behaviour): every column used exactly once, exact names win; per-helper contracts for L=3/4",
          "Strings are abstract (universe of constants + fresh names), difflib is an oracle stub, dicts switched to a "
@@ -109,7 +116,9 @@ C = {
          "forests on 3 / 4 detections."),
  "C20": ("exactly one refresh per accepted top-level user action (payload = new node for UserAddNode and for a paint that "
          "creates a node), none when refused, one per effective undo/redo, none when there is nothing to step to",
-         "Bound: step harness 3-4 slots, history sequences of length 5 / 7."),
+         "Bound: step harness 3-4 slots, history sequences of length 5 / 7. Invariant clause: after every accepted "
+         "edit + undo + redo and after every refusal the refresh signal still delivers (one probe emission reaches the "
+         "listener connected before the call exactly once)."),
 }
 props = [json.loads(l) for l in open("/verif/properties.jsonl")]
 checks = []
